@@ -307,6 +307,12 @@ def run_check(prop, tier, batch_seed=None, workers=None, runs=None, budget=None,
                     fk.setdefault(k[len(pre):], {"configured": 0, "fired": 0, "configured_not_fired": 0})[field] = v
                     break
         cov["fault_kinds_injected"] = dict(sorted(fk.items()))
+        cov["file_system"] = {
+            "seam": "every run and every pristine execution has an empty private directory as cwd, HOME, XDG_* and TMPDIR (removed afterwards); "
+                    "opens for writing outside it are recorded through an audit hook",
+            "files_left_in_private_directory": sorted(str(x) for x in sets.get("fs_files_left", ()))[:20],
+            "writes_outside_private_directory": sorted(str(x) for x in sets.get("fs_outside_writes", ()))[:20],
+        }
         cov.update(extra)
         if hasattr(mod, "finish_coverage"):
             mod.finish_coverage(cov, stats, sets)
@@ -330,6 +336,13 @@ def run_check(prop, tier, batch_seed=None, workers=None, runs=None, budget=None,
 
 def _absorb(res, stats, sets, sigs, nontrivial_sigs, samples, viols):
     merge_stats(stats, res.get("stats"))
+    # the file-system seam (farm._enter_sandbox): what the code under simulation left on disk, and where
+    if res.get("files_left"):
+        merge_stats(stats, {"fs_runs_that_left_files_in_their_private_directory": 1})
+        merge_sets(sets, {"fs_files_left": list(res["files_left"])[:5]})
+    if res.get("outside_writes"):
+        merge_stats(stats, {"fs_runs_that_wrote_outside_their_private_directory": 1})
+        merge_sets(sets, {"fs_outside_writes": list(res["outside_writes"])[:5]})
     merge_sets(sets, res.get("sets"))
     sigs.add(res.get("sig"))
     if res.get("nontrivial"):
